@@ -40,6 +40,7 @@ type Site struct {
 	LeakExit ssa.Instruction // non-nil: exit reachable without any event
 	LeakPath []int
 	Double   [2]ssa.Instruction // non-nil: second release reachable after a first
+	UseAfter [2]ssa.Instruction // non-nil: [release, later use of the released value]
 	Owners   []string           // named struct types the resource was stored into (Type.field)
 	aliases  map[ssa.Value]bool
 }
@@ -543,6 +544,54 @@ func Analyze(k *Kind, fn *ssa.Function, start ssa.Instruction, roots []ssa.Value
 		}
 	}
 	edge := func(from *ssa.BasicBlock, succ int) bool { return edgeOK(from, succ, isAlias) }
+	// use after release: a later instruction that still uses the very SSA value that was released
+	for in, w := range evAt {
+		if w != "release" {
+			continue
+		}
+		cc := ssax.Common(in)
+		var rv ssa.Value
+		if cc.IsInvoke() {
+			rv = cc.Value
+		} else {
+			for _, a := range cc.Args {
+				if isAlias(a) {
+					rv = a
+					break
+				}
+			}
+		}
+		if rv == nil {
+			continue
+		}
+		if _, isPhi := rv.(*ssa.Phi); isPhi {
+			continue
+		}
+		def, _ := rv.(ssa.Instruction)
+		uses := func(x ssa.Instruction) bool {
+			if x == in {
+				return false
+			}
+			switch x.(type) {
+			case *ssa.DebugRef, *ssa.Phi:
+				return false
+			}
+			if bo, ok := x.(*ssa.BinOp); ok && (ssax.IsNilConst(bo.X) || ssax.IsNilConst(bo.Y)) {
+				return false
+			}
+			var ops []*ssa.Value
+			for _, op := range x.Operands(ops) {
+				if op != nil && *op == rv {
+					return true
+				}
+			}
+			return false
+		}
+		redef := func(x ssa.Instruction) bool { return def != nil && x == def }
+		if tgt, _, found := (ssax.Search{Target: uses, Avoid: redef}).From(fn, in); found {
+			s.UseAfter = [2]ssa.Instruction{in, tgt}
+		}
+	}
 	// double release: a second plain release reachable after a first one without re-acquiring
 	for in, w := range evAt {
 		if w != "release" {
